@@ -11,7 +11,7 @@ from __future__ import annotations
 import ast
 
 from ..boolguard import dedup_guard_rule, post_mark_rule
-from ..model import norm
+from ..model import AnalysisError, norm
 from ..paths import all_paths
 from ..seqrules import atoms, commits_after_synthetic, path_infos, shape
 
@@ -222,3 +222,39 @@ def run(ctx, rep) -> None:
                       f": {extra} differ between delivery schedules - if they order the merge, the value a join stage inherits for a key written by two parallel branches depends on which branch's messages were delivered first"),
                       s_.file, s_.line, disc=f"merge-columns:{f.module.name.split('.')[-2]}:{'+'.join(extra)}")
     rep.floor("SELECTs feeding the ancestor merge", n6, 1)
+
+    # ---- R7: both delivery orders of {JumpToStage, CompleteTask(REDIRECT)} close the jumping task ------------------------------------------
+    from ..statuspred import status_set as _ss7
+    rep.rule("C02.R7", "reset_stage_to_succeeded converts every status the jumping task can have when the jump is handled: RUNNING (jump first) and the statuses CompleteTask stores without continuation (REDIRECT: CompleteTask first)")
+    T7 = ctx.st
+    ct_cls = prog.cls("stabilize.handlers.complete_task", "CompleteTaskHandler")
+    nocont7: set = set()
+    for mi in ct_cls.methods.values():
+        for i in ast.walk(mi.node):
+            if isinstance(i, ast.If) and i.body and isinstance(i.body[-1], ast.Return):
+                ss = _ss7(i.test, "message.status", T7)
+                if ss is None:
+                    continue
+                pushes = any(isinstance(c, ast.Call) and isinstance(c.func, ast.Attribute) and c.func.attr in ("push_message", "push") for s_ in i.body for c in ast.walk(s_))
+                stores = any(isinstance(c, ast.Call) and isinstance(c.func, ast.Attribute) and c.func.attr == "store_stage" for s_ in i.body for c in ast.walk(s_))
+                if stores and not pushes:
+                    nocont7 |= set(ss)
+    rs = prog.func("stabilize.handlers.jump_to_stage.reset", "reset_stage_to_succeeded")
+    conv = None
+    for lp in [x for x in ast.walk(rs.node) if isinstance(x, ast.For) and "tasks" in norm(x.iter)]:
+        var = norm(lp.target)
+        writes = [a for a in ast.walk(lp) if isinstance(a, ast.Assign) and norm(a.targets[0]) == f"{var}.status"]
+        if not writes:
+            continue
+        from ..dom import raw_conditions_at as _rc7
+        conv = frozenset(T7.members)
+        for t_, tr_ in _rc7(rs.node, writes[0]):
+            ss = _ss7(t_ if tr_ else ast.UnaryOp(op=ast.Not(), operand=t_), f"{var}.status", T7)
+            if ss is not None:
+                conv = conv & ss
+    if conv is None:
+        raise AnalysisError("reset_stage_to_succeeded: the loop that closes the stage's tasks was not found")
+    need = {"RUNNING"} | nocont7
+    missing = sorted(need - conv)
+    rep.check(not missing, "C02.R7", "the forward jump closes its task in both delivery orders", f"converts tasks in {sorted(conv) if len(conv) < 12 else 'every status'}; needed {sorted(need)}" + ("" if not missing else
+              f": a task left {missing} by the CompleteTask that overtook the jump stays {missing} in a SUCCEEDED stage - in-order delivery ends with the task SUCCEEDED"), rs.file, rs.node.lineno, disc="jump-closes-task")
